@@ -634,3 +634,43 @@ Example ex_permute_declarations :
   exists r, eval_program false ex_perm_P 50 ex_perm_rs = Ok r /\
             eval_program false ex_perm_P' 50 (map (km_expr (within swap01) idp) ex_perm_rs) = Ok (km_result ids (within swap01) idp r).
 Proof. split; [discriminate|]. eexists. split; vm_compute; reflexivity. Qed.
+
+(** [let t = { 'p num }; let f x = { 'q x, 'r t }; res /a on get -> <f t>;] and the same with [t]
+    moved into a second module *)
+Example ex_move_P' : prog :=
+  [[ mk_decl None false [] [7] (EObj [EProp 21 None (ETerm [] (EBind 7)); EProp 22 None (ETerm [] (EDecl 1 0))]) ];
+   [ mk_decl None false [] [] (EObj [EProp 20 None (ETerm [] (EPrim 2))]) ]].
+(** the three-cycle (0,0) -> (1,0) -> (0,1) -> (0,0) on positions; every other position stays *)
+Definition rot (m i : N) : N * N :=
+  if N.eqb m 0 && N.eqb i 0 then (1, 0) else if N.eqb m 1 && N.eqb i 0 then (0, 1) else if N.eqb m 0 && N.eqb i 1 then (0, 0) else (m, i).
+Lemma rot_inj m i m' i' : rot m i = rot m' i' -> m = m' /\ i = i'.
+Proof.
+  unfold rot. repeat match goal with |- context [N.eqb ?a ?b] => destruct (N.eqb_spec a b) end; cbn [andb]; intros E; inversion E; subst; split; try reflexivity; try lia; try congruence.
+Qed.
+
+Lemma get_decl_short (P : prog) m i : (length P <= N.to_nat m)%nat -> get_decl P m i = None.
+Proof. intros H. unfold get_decl. rewrite (proj2 (nth_error_None P (N.to_nat m)) H). reflexivity. Qed.
+Lemma get_decl_short_row (P : prog) m i ds : nth_error P (N.to_nat m) = Some ds -> (length ds <= N.to_nat i)%nat -> get_decl P m i = None.
+Proof. intros H Hi. unfold get_decl. rewrite H. apply nth_error_None, Hi. Qed.
+
+Lemma ex_moved : moved rot idp ex_perm_P ex_move_P'.
+Proof.
+  intros m i. unfold rot.
+  destruct (N.eqb_spec m 0) as [->|Hm0]; cbn [andb].
+  - destruct (N.eqb_spec i 0) as [->|Hi0]; [reflexivity|].
+    destruct (N.eqb_spec i 1) as [->|Hi1]; [reflexivity|]. cbn [N.eqb Pos.eqb andb]. simpl fst. simpl snd.
+    assert (Hi : (2 <= N.to_nat i)%nat) by lia.
+    rewrite (get_decl_short_row ex_perm_P 0 i _ eq_refl) by (cbn; lia).
+    rewrite (get_decl_short_row ex_move_P' 0 i _ eq_refl) by (cbn; lia). reflexivity.
+  - destruct (N.eqb_spec m 1) as [->|Hm1]; cbn [andb].
+    + destruct (N.eqb_spec i 0) as [->|Hi0]; cbn [N.eqb Pos.eqb andb]; simpl fst; simpl snd.
+      * reflexivity.
+      * rewrite (get_decl_short ex_perm_P 1 i) by (cbn; lia).
+        rewrite (get_decl_short_row ex_move_P' 1 i _ eq_refl) by (cbn; lia). reflexivity.
+    + simpl fst. simpl snd. rewrite (get_decl_short ex_perm_P m i) by (cbn; lia). rewrite (get_decl_short ex_move_P' m i) by (cbn; lia). reflexivity.
+Qed.
+
+Example ex_move_declarations :
+  exists r, eval_program false ex_perm_P 50 ex_perm_rs = Ok r /\
+            eval_program false ex_move_P' 50 (map (km_expr rot idp) ex_perm_rs) = Ok (km_result ids rot idp r).
+Proof. eexists. split; vm_compute; reflexivity. Qed.
